@@ -22,6 +22,7 @@ func init() {
 }
 
 func runC17(c *Ctx) {
+	c.Rule("C17.O7", "E1-atomic", "the overflow test and the enqueue it guards are one critical section of Conn.mux: no unlock between them, not even inside a callee that locks again before it returns (check-then-act on Conn.left)", 2)
 	c.Rule("C17.O1", "E4", "overflow(len of whole input) dominates every kernel write and enqueue in write/writev; its true edge returns a non-nil overflow error without writing or queuing", 2)
 	c.Rule("C17.O2", "E8", "overflow(n) == (MaxWriteBufferSize > 0 && left+n > MaxWriteBufferSize), decided on the formula extracted from the branch conditions", 1)
 	c.Rule("C17.O3", "E4", "enqueue adds len(buf) to left exactly once on every path; flush subtracts the syscall count n by which it advances entry.offset, under n>0", 2)
@@ -92,6 +93,7 @@ func runC17(c *Ctx) {
 		}
 		// every write / enqueue site dominated by the false edge
 		nSites := 0
+		split := ""
 		for _, cs := range c.P.Calls(fn, nil) {
 			callee := ir.StaticCallee(cs.Common)
 			if callee == nil || callee == fn || !(kernel[callee] || enqueue[callee]) {
@@ -101,12 +103,18 @@ func runC17(c *Ctx) {
 			if !fi.EdgeDominates(iff, fEdge, cs.In.Block()) {
 				bad = fmt.Sprintf("%s at %s is reachable without passing the overflow test", c.P.FuncName(callee), c.Pos(cs.In))
 			}
+			if enqueue[callee] {
+				if same, rel := c.Locks().SameRegion(fi, fConnMux, ov.In, cs.In); !same {
+					split = fmt.Sprintf("Conn.mux is given up at %s between the overflow test (%s) and the enqueue at %s: a concurrent writer passes the same test on the same backlog and both remainders are queued, exceeding the maximum", c.Pos(rel), c.Pos(ov.In), c.Pos(cs.In))
+				}
+			}
 		}
 		if nSites == 0 {
 			c.Unres("C17.O1", key, "no write/enqueue site found behind the overflow test")
 			continue
 		}
 		c.Cond(bad == "", "C17.O1", key, c.Pos(ov.In), fmt.Sprintf("%d write/enqueue sites dominated by the !overflow edge", nSites), bad)
+		c.Cond(split == "", "C17.O7", fnKey(c.P, fn, "overflow test and enqueue in one critical section"), c.Pos(ov.In), "no release of Conn.mux (direct, or inside a callee that re-locks) between the test and the enqueue", split)
 	}
 
 	// ---- O2
